@@ -701,6 +701,43 @@ var scenarios = []scenario{
 		c.crash(3, true)
 		c.replicate(1)
 	}, 3, true},
+	{"node-that-installed-a-snapshot-leads-and-serves-from-that-boundary", func(c *simCluster) {
+		// node 3 is brought up to date by a snapshot: its log starts exactly at its snapshot index.  It then leads and has
+		// to bring a brand-new node up to date: snapshot first, then the entries after it, whose previous entry is the
+		// snapshot's last entry (its term comes from the snapshot, the log does not hold it)
+		c.elect(1)
+		c.replicate(1)
+		c.setContact(1, 3, false)
+		for k := 0; k < 14; k++ {
+			c.doClient(c.nodes[1], []entryType{entryUpdate, entryUpdate, entryUpdate})
+			c.replicate(1, 2)
+		}
+		for k := 0; k < 3; k++ {
+			c.snapshotStep(c.nodes[1])
+		}
+		c.doClient(c.nodes[1], []entryType{entryUpdate})
+		c.replicate(1, 2)
+		c.setContact(1, 3, true)
+		c.replicate(1) // node 3 installs the snapshot
+		c.doClient(c.nodes[1], []entryType{entryUpdate, entryUpdate})
+		c.replicate(1)
+		c.loseQuorum(1)
+		c.disconnect(2, 1)
+		c.disconnect(3, 1)
+		if !c.electWith(3, 2) {
+			return
+		}
+		c.replicate(3, 2)
+		_ = c.addNode(4, nil)
+		c.changeConfigWith(3, func(cfg *Config) {
+			cfg.Nodes[4] = Node{ID: 4, Addr: "M4:8888"}
+		})
+		for k := 0; k < 4; k++ {
+			c.replicate(3, 2, 4)
+		}
+		c.doClient(c.nodes[3], []entryType{entryUpdate})
+		c.replicate(3, 2, 4)
+	}, 3, false},
 	{"compaction-at-follower-match-boundary", func(c *simCluster) {
 		// follower 3 stops exactly at the last index of the leader's first segment; the leader goes on
 		// with follower 2, takes a snapshot and compacts that segment; then talks to follower 3 again
